@@ -14,6 +14,9 @@ EXPLANATION = (
     'argument and any exact-width test that follows, must equal the documented range of the '
     'specifier (%m 1-12, %d 1-31, %H 0-23, %M 0-59, %S 0-60, %U/%W 0-53, %u 1-7, %w 0-6, %E4Y '
     '-999..9999 in exactly four characters, offset hh 0-23 mm/ss 0-59 in exactly two digits each). '
+    'C09-fields: with every tm field inside the range its writers admit, hour, minute and second reach '
+    'the civil_second constructor inside their normalised ranges (leap second 60 folded to 59 with a '
+    'one-second offset), so the month/day comparison is a complete no-normalisation test. '
     'C09-exit: every accepting return is reachable only through the failing tests for a null '
     'cursor and for trailing non-space data; the final return additionally only through the '
     'no-normalisation test on month and day, and no edge on which the offset guards against '
@@ -161,6 +164,36 @@ def run(ctx):
                   construct='range:%s:%s' % ('/'.join(labs), dsuf), detail='%s w=%s exact=%s' % (got, width, exact))
     ctx.minimum('C09-range', 16)
 
+    # ---- C09-range (offset parser): the cursor handed back ends right after a complete two-digit field
+    ko = G.one('cctz::detail::ParseOffset', 'constchar*')
+    uo, fo_ = G.defs[ko]
+    Fo = ctx.facts(fo_)
+    retvars = set()
+    for r in [x for x in walk(fo_) if x.get('kind') == 'ReturnStmt']:
+        d = peel(kids(r)[0])
+        if d.get('kind') == 'DeclRefExpr':
+            retvars.add((d.get('referencedDecl') or {}).get('id'))
+    n_asg = 0
+    for x in walk(fo_):
+        if x.get('kind') == 'BinaryOperator' and x.get('opcode') == '=' and \
+                (peel(kids(x)[0]).get('referencedDecl') or {}).get('id') in retvars:
+            rk = Fo.keys.key(kids(x)[1])
+            if rk == 'null':
+                continue
+            n_asg += 1
+            fs = Fo.facts_at_ast(x) or frozenset()
+            ok = any(op == '==' and 'n:2' in (a, b) and (a if b == 'n:2' else b).startswith('(%s - ' % rk) for (op, a, b) in fs)
+            ctx.check(ok, 'C09-range', 'offset parser advances its result to %s only after exactly two digits' % rk.split('#')[0], x,
+                      'the cursor returned by the offset parser is moved to a position that is not the end of a complete '
+                      'two-digit field (for example past a separator that is not followed by digits): malformed offsets '
+                      'such as "+01:" are accepted', construct='range:offset-cursor:%s' % rk.split('#')[0])
+    if n_asg < 3:
+        ctx.bad('C09-range', 'offset parser result assignments', fo_, 'expected three advancing assignments, found %d' % n_asg,
+                construct='range:offset-cursor:count')
+
+    # ---- C09-fields: only the day of month can normalise in the civil time built from the parsed fields
+    _check_fields(ctx, kp, u, f)
+
     # ---- C09-exit
     F = ctx.facts(f)
     g = ctx.cfg(f)
@@ -277,6 +310,85 @@ def run(ctx):
     for (k2, u2, f2, call) in nul.strchr_sites(ctx, lambda k2, u2, f2: u2.name == 'time_zone_format.cc'):
         nul.check_site(ctx, 'C09-nul', k2, u2, f2, call)
     ctx.minimum('C09-nul', 2)
+
+
+class _CtorObs(Observer):
+    def __init__(self):
+        self.args = None
+
+    def call(self, ai, site, fkey, vals, st):
+        if fkey[0].endswith('civil_time<second_tag>::civil_time') and len(fkey[1]) == 6:
+            vs = [v for (k_, v) in vals]
+            self.args = vs if self.args is None else [vjoin(a, b) for a, b in zip(self.args, vs)]
+            self.site = site
+
+
+def _check_fields(ctx, kp, u, f):
+    """With every tm field inside the range its writers admit (ParseInt ranges above, strptime's
+    documented ranges, FromWeek's civil accessors), hour, minute and second reach the civil_second
+    constructor inside their normalised ranges, so the month/day comparison is a complete
+    no-normalisation test."""
+    G = ctx.G
+    TM = {'tm_sec': (0, 60), 'tm_min': (0, 59), 'tm_hour': (0, 23), 'tm_mday': (1, 31), 'tm_mon': (0, 11),
+          'tm_year': (-2 ** 31, 2 ** 31 - 1), 'tm_wday': (0, 6), 'tm_yday': (0, 365), 'tm_isdst': (-1, 1)}
+    obs = _CtorObs()
+    loops_ = [x for x in walk(f) if x.get('kind') == 'WhileStmt' and any(y.get('kind') == 'SwitchStmt' for y in walk(x))]
+    main = loops_[0] if loops_ else None
+
+    tmids = set(x['id'] for x in walk(f) if x.get('kind') == 'VarDecl' and 'tm' in (dtype(x) or qtype(x)).split('::')[-1:] + [qtype(x)])
+
+    def assume_loc(loc):
+        # fields of the std::tm being filled: whatever wrote them last (ParseInt with the ranges
+        # checked above, strptime with its documented ranges, FromWeek with civil accessors)
+        if len(loc) == 2 and loc[1] in TM and loc[0] in tmids:
+            lo, hi = TM[loc[1]]
+            return Int(lo, hi)
+        return None
+
+    def inline(key):
+        return key[0] in ('cctz::detail::civil_time<second_tag>::civil_time',) and False
+    ai = AI(G, obs, inline=lambda k_: False, loop_once=lambda l: True, assume_loc=assume_loc, ptr_partition=False, max_parts=32)
+    # the constructor call must be observed although nothing is inlined: hook via call() on known ctors
+    orig = ai.call_function
+
+    def call_function(fkey, args, st, uu, site, this_loc=None):
+        if fkey[0].endswith('civil_time<second_tag>::civil_time') and len(fkey[1]) == 6:
+            vals = []
+            cur = [st]
+            for a in args:
+                nxt = []
+                for s_ in cur:
+                    for (v, s2) in ai.eval(a, s_, uu):
+                        vals.append(v)
+                        nxt.append(s2)
+                cur = nxt[:1]
+            obs.call(ai, site, fkey, [('val', v) for v in vals[:6]], st)
+        return orig(fkey, args, st, uu, site, this_loc)
+    ai.call_function = call_function
+    st = St()
+    for p in params_of(f):
+        if qtype(p).rstrip().endswith('*'):
+            st.mem[(p['id'],)] = Ptr('M', ('ARG', p['id']), I(0))
+        else:
+            st.refs[p['id']] = ('ARG', p['id'])
+    ai.analyse(kp, st)
+    if obs.args is None:
+        raise AnalysisBroken('C09-fields: construction of the civil_second from the parsed fields not found')
+    want = [None, (1, 12), (1, 31), (0, 23), (0, 59), (0, 59)]
+    names = ['year', 'month', 'day', 'hour', 'minute', 'second']
+    for nm, w, v in zip(names, want, obs.args):
+        if w is None:
+            continue
+        if nm in ('month', 'day'):
+            # month/day are the two fields the explicit no-normalisation test covers
+            continue
+        ok = isinstance(v, Int) and v.within(w[0], w[1])
+        ctx.check(ok, 'C09-fields', '%s passed to civil_second lies in [%d,%d]' % (nm, w[0], w[1]), obs.site,
+                  'the %s handed to the civil_second constructor can be %s: it normalises into a neighbouring field, which the '
+                  'month/day comparison does not detect (valid input such as 23:59:60 is rejected, or a wrong instant accepted)'
+                  % (nm, v), construct='fields:%s' % nm, detail=str(v))
+    ctx.assume('strptime leaves tm_sec in [0,60], tm_min in [0,59], tm_hour in [0,23], tm_mday in [1,31], tm_mon in [0,11]')
+    ctx.minimum('C09-fields', 3)
 
 
 def _guards_lead_to_false(ctx, ff, guards):
